@@ -1,37 +1,15 @@
 package main
 
-import (
-	"fmt"
-	"os"
-	"sort"
-)
+import "fmt"
 
-func init() {
-	if os.Getenv("KAIWRITERS") == "" {
-		return
+func dbgFacts(tag string, fs FactSet) {
+	for _, f := range fs.sorted() {
+		fmt.Printf("DBG %s: %s\n", tag, f)
 	}
-	controlFns = append(controlFns, func(c *Ctx) {
-		p := c.P
-		sets := map[string]map[string][]string{
-			"NodeInfo":      {pkgNodeInfo: {"Idle", "Used", "Releasing", "IdleVector", "UsedVector", "ReleasingVector", "Allocatable", "AllocatableVector"}},
-			"GpuSharingNodeInfo":   {pkgNodeInfo: {"UsedSharedGPUsMemory", "ReleasingSharedGPUsMemory", "AllocatedSharedGPUsMemory", "ReleasingSharedGPUs"}},
-			"PodGroupInfo":  {pkgPGInfo: {"Allocated", "AllocatedVector", "PodStatusIndex", "activeAllocatedCount"}},
-			"PodSet":        {pkgPGInfo + "/subgroup_info": {"numActiveAllocatedTasks", "numActiveUsedTasks", "numAliveTasks", "podStatusIndex", "podStatusMap", "podInfos"}},
-			"ResourceShare": {"pkg/scheduler/plugins/proportion/resource_share": {"Allocated", "AllocatedNotPreemptible", "Request", "Deserved", "FairShare", "MaxAllowed"}},
-		}
-		for typ, m := range sets {
-			for pk, names := range m {
-				for _, n := range names {
-					fv := p.fieldVars(pk, typ, n)
-					ws := p.writersOf(fv)
-					var ks []string
-					for f := range ws {
-						ks = append(ks, funcKey(f))
-					}
-					sort.Strings(ks)
-					fmt.Printf("WRITERS %s.%s (%d fields): %v\n", typ, n, len(fv), ks)
-				}
-			}
-		}
-	})
+}
+
+func dbgEffects(tag string, es []Effect) {
+	for _, e := range es {
+		fmt.Printf("DBG %s: %s via=%s amt=%v\n", tag, e.key(), e.Via, e.AmountT)
+	}
 }
